@@ -3,49 +3,50 @@
 
      secp256k1_group : Prop
 
-   the statement that, ON VALID POINTS (on the curve, coordinates in [0, p)), the formulas padd / pneg / smul
-   are closed and form an abelian group with the Z-action smul, that n is prime, and (for recovery) that
-   lift_x inverts (xcoord, yodd), that negation flips the parity of y, and that G has order exactly n.
-   This premise is NOT proved here (no elliptic-curve library is available; associativity of the chord-and-
-   tangent law is out of reach) — it is the trusted statement "secp256k1 is a group of prime order n".
-   Everything else that the abstract section asks for is proved for the concrete functions:
-   n * G = O by evaluation (Proofs/Secp256k1Order.v), O + P = P, x(-P) = x(P), x(O) = 0, is_inf, 1 < n,
-   modular inverses from extended Euclid (modinv_correct), validity of G and of the results of lift_x.
+   which now consists of THREE statements about valid points (on the curve, coordinates in [0, p)):
+     sg_add_assoc    padd P (padd Q R) = padd (padd P Q) R             (associativity of chord-and-tangent)
+     sg_mul_add      smul (a + b) P = padd (smul a P) (smul b P)       (the ladder computes the Z-action ...)
+     sg_mul_mul      smul (a * b) P = smul a (smul b P)                (... of the group)
+   These are NOT proved here (no elliptic-curve library is available; associativity is out of reach).
+
+   Everything else the abstract section asks for is PROVED for the concrete formulas:
+     Proofs/SecpGroupPartial.v : closure of padd, pneg and smul, commutativity, P + (-P) = O, 1*P = P, parity of -P
+       (no curve point has y = 0), lift_x inverts (xcoord, yodd), and "G has order exactly n" as a consequence of
+       the two scalar laws above, n*G = O and the primality of n;
+     Proofs/SecpPrimes.v : p and n are prime (checked Pratt certificates), Euler's criterion for the square root;
+     here: n * G = O by evaluation (Proofs/Secp256k1Order.v), O + P = P, x(-P) = x(P), x(O) = 0, is_inf, 1 < n,
+       modular inverses from extended Euclid (modinv_correct), validity of G and of the results of lift_x.
 
    The hypotheses are relativised to valid points because on junk pairs (x, y) the formulas are of course not a
    group; the abstract section is then applied to the subset type { P | validb P = true }. *)
 From BSV Require Import Base.Bytes.
 From BSV Require Import Prim.Num Prim.Secp256k1 Proofs.Secp256k1Proofs Proofs.Secp256k1Order Proofs.EcdsaAbstract Proofs.SecpPrimes.
+From BSV Require Export Proofs.SecpGroupPartial.   (* validb, valid and the proved group facts *)
 From Coq Require Import Eqdep_dec Zdiv Setoid Morphisms.
 Local Open Scope Z_scope.
 
-Definition validb (P : point) : bool :=
-  match P with
-  | None => true
-  | Some (x, y) => in_field x && in_field y && on_curve P
-  end.
-Definition valid (P : point) : Prop := validb P = true.
+(* validb / valid are defined in Proofs/SecpGroupPartial.v *)
 
 Record secp256k1_group : Prop := {
-  (* closure *)
-  sg_add_closed : forall P Q, valid P -> valid Q -> valid (padd P Q);
-  sg_neg_closed : forall P, valid P -> valid (pneg P);
-  sg_mul_closed : forall k P, valid P -> valid (smul k P);
-  (* abelian group; the identity is None (padd None P = P holds by computation) *)
+  (* associativity; the identity is None (padd None P = P holds by computation) *)
   sg_add_assoc : forall P Q R, valid P -> valid Q -> valid R -> padd P (padd Q R) = padd (padd P Q) R;
-  sg_add_comm : forall P Q, valid P -> valid Q -> padd P Q = padd Q P;
-  sg_add_neg : forall P, valid P -> padd P (pneg P) = None;
   (* smul is the action of Z *)
   sg_mul_add : forall a b P, valid P -> smul (a + b) P = padd (smul a P) (smul b P);
-  sg_mul_mul : forall a b P, valid P -> smul (a * b) P = smul a (smul b P);
-  sg_mul_1 : forall P, valid P -> smul 1 P = P;
-  (* (that the group order n is prime - every non-zero residue is invertible - is no longer a premise:
-     Proofs/SecpPrimes.secp_n_coprime, from a checked Pratt certificate) *)
-  (* used by the recovery theorems only *)
-  sg_lift : forall P, valid P -> P <> None -> lift_x (xcoord P) (yodd P) = Some P;
-  sg_yodd_neg : forall P, valid P -> P <> None -> yodd (pneg P) = negb (yodd P);
-  sg_order_exact : forall a, smul a G = None -> a mod secp_n = 0
+  sg_mul_mul : forall a b P, valid P -> smul (a * b) P = smul a (smul b P)
 }.
+
+(* The former fields of the record, now theorems (Proofs/SecpGroupPartial.v, Proofs/SecpPrimes.v); the names
+   and the (unused) first argument are kept so that the proofs citing them did not have to change. *)
+Definition sg_mul_closed (_ : secp256k1_group) : forall k P, valid P -> valid (smul k P) := secp_mul_closed.
+Definition sg_add_closed (_ : secp256k1_group) : forall P Q, valid P -> valid Q -> valid (padd P Q) := secp_add_closed.
+Definition sg_neg_closed (_ : secp256k1_group) : forall P, valid P -> valid (pneg P) := secp_neg_closed.
+Definition sg_add_comm (_ : secp256k1_group) : forall P Q, valid P -> valid Q -> padd P Q = padd Q P := secp_add_comm.
+Definition sg_add_neg (_ : secp256k1_group) : forall P, valid P -> padd P (pneg P) = None := secp_add_neg.
+Definition sg_mul_1 (_ : secp256k1_group) : forall P, valid P -> smul 1 P = P := secp_mul_1.
+Definition sg_lift (_ : secp256k1_group) : forall P, valid P -> P <> None -> lift_x (xcoord P) (yodd P) = Some P := secp_lift.
+Definition sg_yodd_neg (_ : secp256k1_group) : forall P, valid P -> P <> None -> yodd (pneg P) = negb (yodd P) := secp_yodd_neg.
+Definition sg_order_exact (H : secp256k1_group) : forall a, smul a G = None -> a mod secp_n = 0 :=
+  secp_order_exact_from_laws (sg_mul_add H) (sg_mul_mul H).
 
 (* ------------------------------------------------------------------ *)
 (* Facts proved for the concrete functions.                            *)
